@@ -960,8 +960,16 @@ def run_o_args(inp):
         p0, q0 = pdat.copy(), qdat.copy()
         P, Qp = H.Point(pdat), H.Point(qdat)
         if call == "origin_to_point":
-            r1 = np.array(P.origin_to().proj_data, dtype=float)
-            r2 = np.array(P.origin_to().proj_data, dtype=float)
+            # only row 0 (the image of the origin) and "is an isometry" are specified: the completion of the frame is free,
+            # and may differ between two calls (the stored representative is rescaled by the first one)
+            m1 = np.array(P.origin_to().proj_data, dtype=float)
+            m2 = np.array(P.origin_to().proj_data, dtype=float)
+            Jm = G.J(dim)
+            res = max(float(np.abs(m @ Jm @ m.T - Jm).max()) for m in (m1, m2))
+            r1 = m1[0] / np.linalg.norm(m1[0])
+            r2 = m2[0] / np.linalg.norm(m2[0]) * (1.0 if float(m1[0] @ m2[0]) > 0 else -1.0)
+            r1 = np.concatenate([r1, [0.0]])
+            r2 = np.concatenate([r2, [res]])
         else:
             r1 = np.array(P.unit_tangent_towards(Qp).vector, dtype=float).copy()
             r2 = np.array(P.unit_tangent_towards(Qp).vector, dtype=float).copy()
